@@ -1,1 +1,10 @@
+"""Collects translator items from harness/vh/items/*.py (each module exposes ITEMS = [fn(repo, out), ...])."""
+import importlib
+import os
+
 ITEMS = []
+_d = os.path.join(os.path.dirname(os.path.abspath(__file__)), 'items')
+for _f in sorted(os.listdir(_d)):
+    if _f.endswith('.py') and _f != '__init__.py':
+        _m = importlib.import_module('vh.items.' + _f[:-3])
+        ITEMS += list(getattr(_m, 'ITEMS', []))
